@@ -25,6 +25,7 @@ type Frame struct {
 	isDefer   bool // frame is a deferred call
 	retTo     ssa.Value // call instruction in the caller that receives the result (nil: discard)
 	backEdges map[int]int // block index -> times entered via back edge
+	backSym   map[int]int // block index -> st.symDecisions at the last back edge
 	result    Value
 	nativeRet string // if set: on return call native continuation with this tag
 	recovered bool
@@ -41,6 +42,12 @@ func (f *Frame) clone() *Frame {
 		c.backEdges = make(map[int]int, len(f.backEdges))
 		for k, v := range f.backEdges {
 			c.backEdges[k] = v
+		}
+	}
+	if f.backSym != nil {
+		c.backSym = make(map[int]int, len(f.backSym))
+		for k, v := range f.backSym {
+			c.backSym[k] = v
 		}
 	}
 	return &c
@@ -82,6 +89,7 @@ type State struct {
 	budget  *Term // allocation budget (nil = none)
 	inputLens  map[string]*Term
 	extraTerms []*Term
+	symDecisions int
 	retry    bool // state was forked mid-instruction and re-executes it
 	acctDone bool // allocation of the current instruction already accounted
 }
@@ -90,7 +98,7 @@ var stateCounter int
 
 func (st *State) clone() *State {
 	stateCounter++
-	c := &State{id: stateCounter, alloc: st.alloc, panic_: st.panic_, steps: st.steps, budget: st.budget, retry: true, acctDone: st.acctDone}
+	c := &State{id: stateCounter, alloc: st.alloc, panic_: st.panic_, steps: st.steps, budget: st.budget, retry: true, acctDone: st.acctDone, symDecisions: st.symDecisions}
 	c.frames = make([]*Frame, len(st.frames))
 	for i, f := range st.frames {
 		c.frames[i] = f.clone()
